@@ -19,7 +19,7 @@ GUARD = "LIBEVENT_VERIF"
 
 UNIT_DEFAULTS = {
     "props": [], "tu": None, "functions": [], "mode": "dfcc",
-    "enforce": [], "replace": [], "restrict_fp": [], "unwindset": [],
+    "enforce": [], "replace": [], "replace_calls": [], "restrict_fp": [], "unwindset": [],
     "cbmc": {}, "label": "proved-unbounded", "bound": "none", "trusted": [],
     "min_obligations": 1, "timeout": 120, "timeout_thorough": 900, "mem_gb": 6,
     "tiers": ["quick", "thorough"], "defines": [], "defines_thorough": [], "defines_quick": [],
@@ -218,6 +218,9 @@ def goto_build(u, wd, tier, extra_defines=()):
             else:
                 items.append(s)
         cmd += ["--unwindset", ",".join(items), "--unwinding-assertions"]
+    for f_, g_ in u.get("replace_calls", []):
+        # same-TU callee cut off by a stub BODY defined in unit.c with the callee's signature (usable in plain mode)
+        cmd += ["--replace-calls", "%s:%s" % (f_, g_)]
     cmd += ["--drop-unused-functions", a, a1]
     rc, out, err, t = run(cmd, 300, cwd=wd)
     info["cmds"].append(" ".join(cmd))
@@ -340,7 +343,7 @@ def run_unit(u, tier, keep=False, extra_defines=(), variant=""):
     wd = tempfile.mkdtemp(prefix=u["name"] + ".", dir=WORK)
     t0 = time.time()
     res = {"unit": u["name"], "variant": variant, "tier": tier, "functions": u["functions"], "tu": u["tu"], "label": u["label"],
-           "bound": u["bound"], "mode": u["mode"], "enforced": u["enforce"], "replaced": u["replace"],
+           "bound": u["bound"], "mode": u["mode"], "enforced": u["enforce"], "replaced": u["replace"], "replaced_by_stub_body": u.get("replace_calls", []),
            "replaced_verified_in": u["replaced_verified_in"], "trusted": u["trusted"],
            "verdict": "undecided", "reason": "", "obligations": 0, "discharged": 0, "failed": [], "excluded": [],
            "assumes_in_unit": count_assumes(os.path.join(u["dir"], "unit.c")), "no_body": [], "samples": []}
